@@ -132,8 +132,16 @@ def run():
     for sm in ("cm", "index"):
         for tm in ("relative", "absolute"):
             items.append(("classify[%s,%s]" % (sm, tm), lambda r, sm=sm, tm=tm: _classify(r, [sm], [tm])))
+    items.append(("getdistances", _getdistances))
     sections_parallel(rep, items)
     return rep
+
+
+def _getdistances(rep):
+    """the distance tables classify hands to get_dimensionality are those of the periodic search of the wrapped structure (contract of
+    get_distances, shared with C10)"""
+    from props import C10
+    C10._getdistances(rep)
 
 
 def _classify(rep, seed_modes=("cm", "index"), tol_modes=("relative", "absolute")):
@@ -319,7 +327,10 @@ def replay(ob):
              ("one-atom fcc Cu cell", Atoms("Cu", positions=[[0, 0, 0]], cell=[[0, 1.805, 1.805], [1.805, 0, 1.805], [1.805, 1.805, 0]], pbc=True)),
              ("one-atom sc Po cell, unwrapped atom", Atoms("Po", positions=[[3.9, -0.2, 0.1]], cell=[3.35, 3.35, 3.35], pbc=True)),
              ("one-atom Cu monolayer", Atoms("Cu", positions=[[0, 0, 6]], cell=[[2.55, 0, 0], [1.275, 2.2084, 0], [0, 0, 12]], pbc=[True, True, False])),
-             ("one-atom Au chain", Atoms("Au", positions=[[0, 5, 5]], cell=[2.6, 10, 10], pbc=[True, False, False]))]
+             ("one-atom Au chain", Atoms("Au", positions=[[0, 5, 5]], cell=[2.6, 10, 10], pbc=[True, False, False])),
+             # bonded only through the cell boundary, in partially periodic cells
+             ("C sheet bonded across the boundary", Atoms("C2", scaled_positions=[[0.1, 0.1, 0.5], [0.9, 0.9, 0.5]], cell=[5.2, 5.2, 15], pbc=[True, True, False])),
+             ("C ladder bonded across the boundary", Atoms("C2", scaled_positions=[[0.5, 0.5, 0.12], [0.5, 0.5, 0.88]], cell=[12, 12, 5.6], pbc=[False, False, True]))]
     for name, at in extra + structures():
         if name == "degenerate cell":
             continue
